@@ -59,6 +59,9 @@ func solverArgs(kind string, timeoutMs int) (string, []string) {
 		return "z3", []string{"-in"}
 	case "cvc5":
 		return "cvc5", []string{"--incremental", "--produce-models", "--lang=smt2", fmt.Sprintf("--tlimit-per=%d", timeoutMs)}
+	case "cvc5-int":
+		// integer encoding that keeps the mod-2^k semantics: decides linear arithmetic that stalls bit-blasting
+		return "cvc5", []string{"--incremental", "--produce-models", "--lang=smt2", "--solve-bv-as-int=sum", fmt.Sprintf("--tlimit-per=%d", timeoutMs)}
 	}
 	panic("solver kind")
 }
@@ -75,13 +78,13 @@ func NewSolver(ts *TermStore, kind string, timeoutMs int) *Solver {
 	if err := cmd.Start(); err != nil {
 		panic(err)
 	}
-	s := &Solver{ts: ts, kind: kind, flat: kind != "cvc5", cmd: cmd, inRaw: in, in: bufio.NewWriterSize(in, 1<<16), out: bufio.NewReaderSize(out, 1<<16), timeoutMs: timeoutMs, fbTimeout: 120}
+	s := &Solver{ts: ts, kind: kind, flat: !strings.HasPrefix(kind, "cvc5"), cmd: cmd, inRaw: in, in: bufio.NewWriterSize(in, 1<<16), out: bufio.NewReaderSize(out, 1<<16), timeoutMs: timeoutMs, fbTimeout: 120}
 	if p := os.Getenv("SYMGO_SMTLOG"); p != "" {
 		s.logf, _ = os.OpenFile(p, os.O_CREATE|os.O_WRONLY|os.O_APPEND, 0o644)
 	}
 	s.send("(set-option :global-declarations true)\n")
 	s.send("(set-option :produce-models true)\n")
-	if kind != "cvc5" {
+	if !strings.HasPrefix(kind, "cvc5") {
 		s.send(fmt.Sprintf("(set-option :timeout %d)\n", timeoutMs))
 	} else {
 		s.send("(set-logic QF_BV)\n")
